@@ -202,6 +202,9 @@ def rule_method(ctx: Ctx, rel: str, qual: str) -> None:
 def run(ctx: Ctx) -> None:
     tree = ctx.tree
     rule_loop(ctx, "AbstractRefinement.loop_refinement")
+    from ..rules_par import rule_ieee
+
+    ctx.floor("C06.IEEE", rule_ieee(ctx, "C06.IEEE", files=(R, VF, QD)), 3)
     # loop_approximate_refinement (diagonal search on the left volume, not reachable from the state machine) has another
     # shape: only its flag arithmetic is checked (C06.FLAGS below)
     rule_method(ctx, VF, "Vfit.refinement_method")
